@@ -11,17 +11,17 @@ import (
 
 // Flags describing a catalogue stage.
 type Flags struct {
-	Async   bool // delivers from a goroutine other than the producer's / uses time
-	Time    bool // time driven
-	Multi   bool // consumes auxiliary sources
-	Resub   bool // re-subscribes its source by definition
-	Stores  bool // keeps notifications before forwarding them
-	Handoff bool // ObserveOn / SubscribeOn
-	Term    bool // may terminate before its source does
-	Pass    bool // pass-through that hands its destination upstream
-	Waits   bool // waits inside Subscribe (Concat family)
-	NoModel bool
-	Hot     bool
+	Async    bool // delivers from a goroutine other than the producer's / uses time
+	Time     bool // time driven
+	Multi    bool // consumes auxiliary sources
+	Resub    bool // re-subscribes its source by definition
+	Stores   bool // keeps notifications before forwarding them
+	Handoff  bool // ObserveOn / SubscribeOn
+	Term     bool // may terminate before its source does
+	Pass     bool // pass-through that hands its destination upstream
+	Waits    bool // waits inside Subscribe (Concat family)
+	NoModel  bool
+	Hot      bool
 	ErrAware bool
 }
 
